@@ -11,7 +11,7 @@
 From Coq Require Import List Arith.
 From PM Require Import Model.Data Model.Mark Model.Tree Model.StepMap Model.Step Spec.Tokens
   Proofs.ReplaceValid Proofs.SliceSides Proofs.TokenBasics Proofs.ReplaceTokens Proofs.SliceShape Proofs.TokenLaws
-  Proofs.StepAlgebra.
+  Proofs.StepAlgebra Proofs.TokenInj Proofs.ReplaceCanon Proofs.DocEquality.
 Import ListNotations.
 
 Theorem C17_separated_replace_steps_commute : forall s f1 t1 s1 st1 f2 t2 s2 st2 doc da db,
@@ -31,3 +31,17 @@ Theorem C17_separated_replace_steps_commute : forall s f1 t1 s1 st1 f2 t2 s2 st2
     DT s dab = DT s dba.
 Proof. exact replace_steps_commute. Qed.
 Print Assumptions C17_separated_replace_steps_commute.
+
+(* ... and as documents: with the document and both slices in normal form, both orders give EQUAL documents *)
+Theorem C17_separated_replace_steps_converge : forall s f1 t1 s1 st1 f2 t2 s2 st2 doc da db dab dba,
+  check s doc = true -> NormalDoc s doc ->
+  OpenOK s (sl_content s1) (sl_open_start s1) (sl_open_end s1) -> canon_list s (sl_content s1) = true ->
+  OpenOK s (sl_content s2) (sl_open_start s2) (sl_open_end s2) -> canon_list s (sl_content s2) = true ->
+  f1 <= t1 -> t1 < f2 -> f2 <= t2 ->
+  apply s (SReplace f1 t1 s1 st1) doc = ROk da ->
+  apply s (SReplace f2 t2 s2 st2) doc = ROk db ->
+  apply s (SReplace (f2 + length (IT s s1) - (t1 - f1)) (t2 + length (IT s s1) - (t1 - f1)) s2 false) da = ROk dab ->
+  apply s (SReplace f1 t1 s1 false) db = ROk dba ->
+  node_eqb dab dba = true.
+Proof. exact replace_steps_commute_eq. Qed.
+Print Assumptions C17_separated_replace_steps_converge.
